@@ -57,7 +57,7 @@ P = {
  "C16": ("fault_enumeration", "fault-injecting io.Writer/io.Reader (four fault modes, sentinel error values, six reader kinds, flushable and unwritable *os.File destinations); every write index and every read offset enumerated",
          "For each driven (policy,input) every write index and every source offset is faulted (permanent, transient, short); error reporting, no-write-after-failure and clean-prefix are checked from the event log.", "4/C16",
          "exhaustive in the fault position for the driven pairs only."),
- "C17": ("exploration", "history differential: same rule set applied through permuted (rules, commuting switch-like calls, matcher calls in a chain) / re-cased / duplicated / overridden builder histories; instance independence incl. shipped constructors and the zero value",
+ "C17": ("exploration", "history differential: same rule set applied through permuted (rules, commuting switch-like calls, matcher calls in a chain) / re-cased / duplicated / overridden builder histories; instance independence incl. shipped constructors and the zero value; deterministic use-reconfigure-reuse histories (sanitise, change one setting, sanitise the same input) against a never-used policy",
          "Policies built from the same recorded rule set through different builder-call histories must sanitise probes identically; building or extending another instance must not change a policy's outputs or fingerprint.", "4/C17",
          "switch-like options keep their relative order per key."),
  "C18": ("exploration", "per-handler vocabulary discovery + hostile-fragment insertion at every position, in strings, comments and functional notations; malformed-value (unbalanced bracket / open string) oracle; ~4000 undocumented property names",
